@@ -1,4 +1,8 @@
 import PyYetiVerif.Props.C13
+import PyYetiVerif.Props.C13Text
+import PyYetiVerif.Props.C13Dmig
+import PyYetiVerif.Props.C13Grid
+import PyYetiVerif.Props.C13Cord
 #print axioms PyYetiVerif.C13.thru_roundtrip
 #print axioms PyYetiVerif.C13.thru_maximal
 #print axioms PyYetiVerif.C13.nasints_layout
@@ -15,3 +19,26 @@ import PyYetiVerif.Props.C13
 #print axioms PyYetiVerif.C13.dmig_roundtrip
 #print axioms PyYetiVerif.C13.dmig_ncol_form9
 #print axioms PyYetiVerif.C13.dmig_header_ncol
+#print axioms PyYetiVerif.C13.int_field_roundtrip
+#print axioms PyYetiVerif.C13.int_field_padL
+#print axioms PyYetiVerif.C13.set_roundtrip
+#print axioms PyYetiVerif.C13.set_any_wrap
+#print axioms PyYetiVerif.C13.tabled1_roundtrip
+#print axioms PyYetiVerif.C13.spoint_lines_roundtrip
+#print axioms PyYetiVerif.C13.csuper_lines_roundtrip
+#print axioms PyYetiVerif.C13.extrn_lines_roundtrip
+#print axioms PyYetiVerif.C13.dmig_roundtrip_converse
+#print axioms PyYetiVerif.C13.dmig_assignments_iff
+#print axioms PyYetiVerif.C13.dmig_reader_on_written
+#print axioms PyYetiVerif.C13.dmig_frame_roundtrip
+#print axioms PyYetiVerif.C13.dmig_value_field
+#print axioms PyYetiVerif.C13.dmig_lines_cards
+#print axioms PyYetiVerif.C13.dmig_text_roundtrip
+#print axioms PyYetiVerif.C13.vecwrite_length_rule
+#print axioms PyYetiVerif.C13.vecwrite_mismatch_raises
+#print axioms PyYetiVerif.C13.vecwrite_broadcast
+#print axioms PyYetiVerif.C13.wtgrids_packaging
+#print axioms PyYetiVerif.C13.wtgrids_mismatch_raises
+#print axioms PyYetiVerif.C13.grid_roundtrip
+#print axioms PyYetiVerif.C13.cord2_roundtrip
+#print axioms PyYetiVerif.C13.uset_roundtrip
